@@ -1,3 +1,7 @@
+import FrappyModel.Base.JVal
+import FrappyModel.Base.Num
+import FrappyModel.Base.PVal
+import FrappyModel.Datatypes.Types
 import FrappyModel.Generated.C20
 import FrappyModel.Node.Logging
 import FrappyModel.Small.Rotate
